@@ -201,12 +201,12 @@ func emitted(c emitCase) ([]byte, string) {
 		r := libResponseRTU(c.Resp)
 		return r.Bytes(), cat.GoType(r)
 	case "exception":
-		e := packet.ErrorResponseRTU{UnitID: c.Resp.Unit, Function: c.Resp.FC & 0x7F, Code: c.Resp.Code}
+		e := packet.ErrorResponseRTU{UnitID: c.Resp.Unit, Function: c.Resp.FC, Code: c.Resp.Code}
 		return e.Bytes(), "ErrorResponseRTU"
 	case "parse-error":
 		e := packet.NewErrorParseRTU(c.Resp.Code, "x")
 		e.Packet.UnitID = c.Resp.Unit
-		e.Packet.Function = c.Resp.FC & 0x7F
+		e.Packet.Function = c.Resp.FC
 		return e.Bytes(), "ErrorParseRTU"
 	}
 	return nil, ""
@@ -221,7 +221,8 @@ func genEmit(t *rapid.T) emitCase {
 	case "response":
 		return emitCase{Kind: kind, Resp: genResp(t, fc)}
 	}
-	return emitCase{Kind: kind, Resp: spec.Resp{FC: rapid.Uint8Range(0, 127).Draw(t, "efc"), Unit: rapid.Uint8().Draw(t, "unit"), Code: rapid.Uint8().Draw(t, "code"), IsException: true}}
+	// the Function field of the exception structs is a plain uint8: any value can be put into it, the trailer must be the CRC of what is emitted
+	return emitCase{Kind: kind, Resp: spec.Resp{FC: rapid.Uint8().Draw(t, "efc"), Unit: rapid.Uint8().Draw(t, "unit"), Code: rapid.Uint8().Draw(t, "code"), IsException: true}}
 }
 
 var chkEmit = harness.Define("crc-emission", genEmit,
@@ -246,7 +247,7 @@ func TestEmission(t *testing.T) {
 	if harness.Thorough() {
 		// all exception frames: 128 functions x 256 codes (unit sampled)
 		idx := 0
-		for fc := 0; fc < 128; fc++ {
+		for fc := 0; fc < 256; fc++ {
 			for code := 0; code < 256; code++ {
 				idx++
 				if !harness.Mine(idx) {
@@ -259,7 +260,7 @@ func TestEmission(t *testing.T) {
 				}
 			}
 		}
-		harness.Exhaustive("crc-emission", "every (function 0..127, exception code 0..255) RTU exception frame via ErrorResponseRTU.Bytes and ErrorParseRTU.Bytes", 2*128*256)
+		harness.Exhaustive("crc-emission", "every (Function field value 0..255, exception code 0..255) RTU exception frame via ErrorResponseRTU.Bytes and ErrorParseRTU.Bytes", 2*256*256)
 	}
 }
 
